@@ -403,7 +403,8 @@ pub fn run(ctx: &Ctx) -> i32 {
           }
         }
       }
-      for &h in carry_cells(d, false).iter().step_by(if quick { 3 } else { 1 }) {
+      let hw: Vec<u64> = if d == 17 || d == 24 { halfword_sweep_cells(d).into_iter().step_by(if quick { 16 } else { 2 }).collect() } else { vec![] };
+      for &h in carry_cells(d, false).iter().step_by(if quick { 3 } else { 1 }).chain(hw.iter()) {
         for delta in [1u8, 2] {
           if d + delta > 29 {
             continue;
